@@ -537,6 +537,7 @@ class HistogramND(HistogramBase):
             binnings=binnings,
             frequencies=frequencies,
             errors2=errors2,
+            missed=missing,
             **kwargs,
         )
 
